@@ -1,22 +1,10 @@
-/-! Model of `_determine_helicity`'s quadrant counting and the theorem that the counter is always
-    4·(#(4→1) − #(1→4)), hence helicity = counter/4 is an integer for EVERY quadrant sequence. Core Lean only. -/
+import QscModel.Hand.Helicity
+/-! The quadrant counter of `_determine_helicity`: theorems about the executable model `Hand.Helicity`
+    (`QscModel/Hand/Helicity.lean`, tied to the implementation by the `hand helicity` correspondence).
+    The counter is always 4·(#(4→1) − #(1→4)), hence helicity = counter/4 is an integer for EVERY quadrant sequence.
+    Core Lean only; the full set of C13 theorems is in `QscProofs/C13.lean`. -/
 namespace Helicity
-
-/-- quadrant of the normal vector from the signs of (n_R, n_Z), as in the code (`>= 0` tests) -/
-def quadrant (nRnonneg nZnonneg : Bool) : Int :=
-  if nRnonneg then (if nZnonneg then 1 else 4) else (if nZnonneg then 2 else 3)
-
-/-- one update of `counter` for consecutive quadrants a → b -/
-def step (a b : Int) : Int :=
-  if a = 4 ∧ b = 1 then 1 else if a = 1 ∧ b = 4 then -1 else b - a
-
-def up (a b : Int) : Int := if a = 4 ∧ b = 1 then 1 else 0     -- crossing 4 → 1
-def down (a b : Int) : Int := if a = 1 ∧ b = 4 then 1 else 0   -- crossing 1 → 4
-
-/-- walk along the sequence `a, l₀, l₁, …` accumulating (counter, #up, #down, last) -/
-def walk : Int → List Int → (Int × Int × Int × Int)
-  | a, []      => (0, 0, 0, a)
-  | a, b :: l  => let r := walk b l; (step a b + r.1, up a b + r.2.1, down a b + r.2.2.1, r.2.2.2)
+open Hand.Helicity
 
 theorem walk_spec : ∀ (l : List Int) (a : Int),
     (walk a l).1 = ((walk a l).2.2.2 - a) + 4 * ((walk a l).2.1 - (walk a l).2.2.1) := by
